@@ -60,6 +60,10 @@ def run(rep, idx, tier):
                             f"{cname}.__init__ adds no refusal of its own (every shape / init the port signature and Signal accept is accepted)")
         except Exception as e:
             rep.unk("C12.8", "-", f"{cname}.__init__: closed refusal set", f"cannot decide: {type(e).__name__}: {e}")
+    # enumeration / layout shapes give views: they may be assigned, compared and converted, nothing else (D16, fixed)
+    rep.require("C12.9", 1)
+    from . import glue as _g9
+    _g9.view_safe_operations(rep, "C12.9", idx)
     from . import glue
     glue.reset_discipline(rep, "C12.5", idx, ["csr/action:RW", "csr/action:RW1C", "csr/action:RW1S"],
                           allowed_init=[(("RW", "_storage"), "init"), (("RW1C", "_storage"), "init"), (("RW1S", "_storage"), "init")])
